@@ -361,6 +361,7 @@ sqf::runtime::runtime::result sqf::runtime::runtime::execute(sqf::runtime::runti
             if (m_is_exit_requested)
             {
                 m_contexts.clear();
+                m_context_active = {};
                 m_state = state::empty;
             }
 #ifdef SQFVM_RUNTIME_VERIF
@@ -389,6 +390,10 @@ sqf::runtime::runtime::result sqf::runtime::runtime::execute(sqf::runtime::runti
             m_is_halt_requested = false;
             m_run_timestamp = std::chrono::system_clock::now();
             m_state = state::running;
+            if (m_contexts.empty())
+            { // Nothing to run is no failure: the VM is, and stays, empty
+                res = result::empty;
+            }
             while (!m_contexts.empty())
             {
                 for (size_t i = 0; i < m_contexts.size(); i++)
